@@ -71,7 +71,32 @@ pub fn check_case(l: &mut Local, case: &Case) {
         }
     }
     l.transitions += 1;
-    let ss = match sdk(|| msg.evaluate_samples(&samples).map_err(|e| format!("{e:#}"))) {
+    // A sample whose state the single-state path rejects (every pool state is in-bound, so the only
+    // reason is a missing variable that the problem uses) has no solution to agree with: the set
+    // evaluation must fail as well instead of inventing a value for it.
+    let mut rejected_alone: Vec<u64> = vec![];
+    for (id, pi) in &assignment {
+        match sdk(|| msg.evaluate(&mk_state(&case.pool[*pi])).map(|_| ()).map_err(|e| format!("{e:#}"))) {
+            Ok(Ok(())) => {}
+            Ok(Err(_)) => rejected_alone.push(*id),
+            Err(p) => panic!("ENGINE: Instance::evaluate panicked on a C06 pool state: {p}"),
+        }
+    }
+    let r = sdk(|| msg.evaluate_samples(&samples).map_err(|e| format!("{e:#}")));
+    if !rejected_alone.is_empty() {
+        l.outcome(&("rejected", rejected_alone.len()));
+        match r {
+            Err(p) => l.violation("evaluate_samples/panic", || json!(case), p),
+            Ok(Ok(_)) => l.violation(
+                "evaluate_samples/accepted-state-that-evaluate-rejects",
+                || json!(case),
+                format!("Instance::evaluate rejects the states of samples {rejected_alone:?} (a used variable is missing), but evaluate_samples returned a sample set"),
+            ),
+            Ok(Err(_)) => {}
+        }
+        return;
+    }
+    let ss = match r {
         Err(p) => return l.violation("evaluate_samples/panic", || json!(case), p),
         Ok(Err(e)) => return l.violation("evaluate_samples/error", || json!(case), format!("evaluate_samples failed on valid samples: {e}")),
         Ok(Ok((ss, _))) => ss,
@@ -206,6 +231,8 @@ fn instances(tier: Tier) -> Vec<(InstRep, Vec<Vec<(u64, f64)>>)> {
     let c_b = ConRep::new(7, EQ_ZERO, Some(FnRep::Quad { entries: vec![(1, 1, 1.0)], lin: Some((vec![], -4.0)) }));
     let c_c = ConRep::new(1, LE_ZERO, None);
     let rem = |c: ConRep| RemRep { constraint: c, reason: "relaxed".into(), parameters: vec![("k".into(), "v".into())] };
+    // the empty string is a legal reason; the constraint is still a removed one
+    let rem_empty = |c: ConRep| RemRep { constraint: c, reason: String::new(), parameters: vec![] };
     // constraint values exactly on / next to the feasibility tolerance, independent of the state
     let thr = |id: u64, eq: i32, c: f64| ConRep::new(id, eq, Some(FnRep::Const(c)));
     let thr_lin = |id: u64, eq: i32, c: f64| ConRep::new(id, eq, Some(FnRep::Poly { terms: vec![(vec![], c), (vec![1], 0.0)] }));
@@ -221,8 +248,8 @@ fn instances(tier: Tier) -> Vec<(InstRep, Vec<Vec<(u64, f64)>>)> {
         (vec![c_a.clone()], vec![]),
         (vec![c_a.clone(), c_b.clone()], vec![]),
         (vec![c_b.clone()], vec![rem(c_a.clone())]),
-        (vec![], vec![rem(c_b.clone()), rem(c_c.clone())]),
-        (vec![c_c.clone(), c_a.clone()], vec![rem(c_b.clone())]),
+        (vec![], vec![rem(c_b.clone()), rem_empty(c_c.clone())]),
+        (vec![c_c.clone(), c_a.clone()], vec![rem_empty(c_b.clone())]),
     ];
     con_cfgs.extend(base_cfgs);
     let mut out = vec![];
@@ -376,6 +403,20 @@ pub fn run(ctx: &Ctx) -> Finish {
                 check_case(l, &Case { inst: inst.clone(), pool: pool.clone(), entries: sh.clone(), via_add_sample: None });
             }
         }
+        // states that omit a variable the problem may use (ids 1 and 2): whenever the single-state path
+        // rejects such a state, so must the set evaluation - alone, and next to a complete sample in either order
+        for missing in [1u64, 2] {
+            let mut pool2 = pool.clone();
+            pool2.push(pool[0].iter().filter(|(k, _)| *k != missing).cloned().collect());
+            let bad = pool2.len() - 1;
+            for entries in [
+                vec![(bad, vec![SAMPLE_IDS[0]])],
+                vec![(0, vec![SAMPLE_IDS[0]]), (bad, vec![SAMPLE_IDS[1]])],
+                vec![(bad, vec![SAMPLE_IDS[1], SAMPLE_IDS[2]]), (3, vec![SAMPLE_IDS[0]])],
+            ] {
+                check_case(l, &Case { inst: inst.clone(), pool: pool2.clone(), entries, via_add_sample: None });
+            }
+        }
         if t || i % 4 == 0 {
             for seq in &add_seqs {
                 check_case(l, &Case { inst: inst.clone(), pool: pool.clone(), entries: vec![], via_add_sample: Some(seq.clone()) });
@@ -385,7 +426,7 @@ pub fn run(ctx: &Ctx) -> Finish {
     ctx.assume("Differential oracle: the single-state path Instance::evaluate is verified independently by C05.");
     Finish {
         level: "model_checking",
-        rule: "every Samples message with k sample ids: every ordered set partition of the ids into entries x every assignment of a pool state to each entry (the pool holds a state omitting the irrelevant variable, two different states with equal objective and constraint values, and a duplicate so equal states sit in separate entries), plus every add_sample insertion order for k=3; each message through the real evaluate_samples and SampleSet::get, compared field by field with Instance::evaluate of that sample's state; tables keyed by exactly the submitted ids; non-trivial = at least two samples".into(),
+        rule: "every Samples message with k sample ids: every ordered set partition of the ids into entries x every assignment of a pool state to each entry (the pool holds a state omitting the irrelevant variable, two different states with equal objective and constraint values, and a duplicate so equal states sit in separate entries), plus every add_sample insertion order for k=3; each message through the real evaluate_samples and SampleSet::get, compared field by field with Instance::evaluate of that sample's state; tables keyed by exactly the submitted ids; samples whose state omits a variable the problem uses (alone / beside a complete sample): rejected by the set evaluation exactly when Instance::evaluate rejects them; non-trivial = at least two samples".into(),
         bounds: json!({"k_full": kmax_full, "k_two_state_pool": ctx.tier.pick(5,6), "k_structured": [7,8], "pool_states": 4, "sample_ids": ["3","0","7","2^40","100","5","u64::MAX","42"]}),
         exhaustive: t,
     }
